@@ -86,6 +86,33 @@ func randCompose(rng *rand.Rand, n int) cmpCfg {
 			c.HA[s-1] = []string{"none", "none", "ok", "ok", "fail"}[rng.Intn(5)]
 		}
 	}
+	// two including stages: half of the time the second one depends on the first, the first allows
+	// failure and a stage of the included pipeline fails - the second inclusion finds the pipeline
+	// already run (and failed)
+	var incl []int
+	for s := 1; s <= n; s++ {
+		if c.Inc[s-1] {
+			incl = append(incl, s)
+		}
+	}
+	if len(incl) == 2 && rng.Intn(2) == 0 {
+		first, second := incl[0], incl[1]
+		c.Cls[first-1], c.Cls[second-1] = "FAILA", "OK"
+		has := false
+		for _, d := range c.Deps[second-1] {
+			has = has || d == first
+		}
+		if !has {
+			c.Deps[second-1] = append(c.Deps[second-1], first)
+		}
+		for s := 1; s <= n; s++ {
+			if c.Gr[s-1] == 1 {
+				c.Cls[s-1] = "FAIL"
+				c.FailAt[s-1] = 1 + rng.Intn(c.NCmd[s-1])
+				break
+			}
+		}
+	}
 	return c
 }
 
